@@ -9,6 +9,7 @@ import KmipModel.Discover
 import KmipModel.Accept
 import KmipModel.Shutdown
 import KmipModel.Client
+import KmipModel.ClientIO
 import KmipModel.Stream
 import Driver.IoStackIO
 import KmipModel.DecodeStack
@@ -288,6 +289,28 @@ def step (line : String) : String :=
       match runSchedule acts with
       | some states => "ok " ++ "|".intercalate ((states.map observeSd).eraseDups)
       | none => "invalid"
+    | none => "bad-op"
+  -- clientio RT WT OP…: the calls a Client makes on its connection (c1 / c0 = Connect reaching / not reaching the server, x = Close,
+  -- s<enc><wr> = Send of an encodable (1) / unencodable (0) request whose write succeeds (1) / fails (0)); `j` first = the Client is
+  -- already connected
+  | "clientio" :: rt :: wt :: rest =>
+    let cfg : ClientIO.Cfg := { readTimeout := rt == "1", writeTimeout := wt == "1" }
+    let (st, ops) := match rest with
+      | "j" :: r => (({ conn := true, codec := true } : Client.CState), r)
+      | r => (Client.CState.fresh, r)
+    let parseOp (t : String) : Option ClientIO.Op :=
+      match t with
+      | "c1" => some (.connect true) | "c0" => some (.connect false) | "x" => some .close
+      | "s11" => some (.send ⟨true, true⟩) | "s10" => some (.send ⟨true, false⟩)
+      | "s01" => some (.send ⟨false, true⟩) | "s00" => some (.send ⟨false, false⟩)
+      | _ => none
+    let showEv (e : ClientIO.Ev) : String :=
+      match e with
+      | .dial ok => if ok then "dial:ok" else "dial:fail"
+      | .armRead => "armRead" | .armWrite => "armWrite" | .handshake => "handshake"
+      | .write => "write" | .read => "read" | .closeConn => "close"
+    match ops.mapM parseOp with
+    | some os => "ok " ++ ";".intercalate ((ClientIO.trace cfg st os).map showEv)
     | none => "bad-op"
   -- clientsend OP HEX / clientdv HEX: Client.Send / Client.DiscoverVersions given the bytes the peer replies with
   | ["clientsend", op, hex] =>
